@@ -20,7 +20,7 @@ theorem mig_pool_changes_only_by_migration (s s' : St) (e : Ev) (hs : step s e =
     (hne : s'.pool u ≠ s.pool u) : (∃ p, e = .migrate u p ∧ s'.pool u = p) ∨ (∃ p, e = .create u p) := by
   cases e <;>
     simp only [step, stepCreate, stepPush, stepPop, stepSetSt, stepRun, stepUserStart, stepUserEnd, stepCb, stepIncB,
-      stepDecB, stepResume, stepFinish, stepTerminate, stepFree, stepReqSet, stepReqClr, stepMigrate, stepJoinRet] at hs <;>
+      stepDecB, stepResume, stepFinish, stepTerminate, stepFree, stepReqSet, stepReqClr, stepMigrate, stepJoinRet, stepXferB] at hs <;>
     (repeat' (split at hs)) <;> (try cases hs) <;> simp_all [setLoc, upd] <;> grind
 
 /-- **only on request, only at a scheduling point**: the pool changes only while a MIGRATE request is pending and the unit
